@@ -129,3 +129,84 @@ package crypto
 //@   ensures [sound] result == nil ==> signature != nil && hotstuff.setlen(hotstuff.parts(signature)) >= 1 && (forall id hotstuff.ID :: hotstuff.setmem(hotstuff.parts(signature), id) ==> sigvalid(self, signature, id, content(message)))
 //@ interface Base.BatchVerify
 //@   ensures [sound] result == nil ==> signature != nil && hotstuff.setlen(hotstuff.parts(signature)) >= 1 && (forall id hotstuff.ID :: hotstuff.setmem(hotstuff.parts(signature), id) ==> has(batch, id) && sigvalid(self, signature, id, content(batch[id])))
+
+// ---- repeated signers are rejected before any quorum is counted
+//@ func (Multi[*ECDSASignature]).hasDuplicateSigner property C02,C19
+//@   requires mnonnil(sig)
+//@   ensures [def] result == !mdistinct(sig)
+//@   loop 0 invariant [seen] forall id hotstuff.ID :: has(seen, id) == (exists i int :: {sig[i]} 0 <= i && i <= rangeindex && sig[i].signer == id)
+//@   loop 0 invariant [prefix] forall i int, j int :: {sig[i], sig[j]} 0 <= i && i < j && j <= rangeindex ==> sig[i].signer != sig[j].signer
+//@   loop 0 invariant [map] seen != nil && fresh(seen)
+//@   modifies alloc
+
+// Sequential part of ECDSA verification (the per-signature checks run in goroutines and are
+// not modelled: their outcome is arbitrary here): an accepted signature is a non-empty
+// Multi with pairwise distinct signers.
+//@ func (*ECDSA).Verify property C02,C19
+//@   requires forall sg hotstuff.QuorumSignature :: istype(sg, Multi[*ECDSASignature]) ==> mnonnil(as(sg, Multi[*ECDSASignature]))
+//@   ensures [distinct] result == nil ==> istype(signature, Multi[*ECDSASignature]) && len(as(signature, Multi[*ECDSASignature])) >= 1 && mdistinct(as(signature, Multi[*ECDSASignature]))
+//@   modifies alloc
+//@ func (*ECDSA).BatchVerify property C02,C19
+//@   requires forall sg hotstuff.QuorumSignature :: istype(sg, Multi[*ECDSASignature]) ==> mnonnil(as(sg, Multi[*ECDSASignature]))
+//@   ensures [distinct] err == nil ==> istype(signature, Multi[*ECDSASignature]) && len(as(signature, Multi[*ECDSASignature])) >= 1 && mdistinct(as(signature, Multi[*ECDSASignature]))
+//@   modifies alloc
+
+// Refinement link between the interface model functions and the Multi representation: for a
+// signature whose dynamic type is Multi[*ECDSASignature], its participant set is the list
+// itself, the set size is the list length and membership is membership in the list. (Backed
+// by the contracts of (Multi).Len and (Multi).Contains above; Participants returns the
+// receiver.)
+//@ axiom multi_ecdsa_refines forall s hotstuff.QuorumSignature :: istype(s, Multi[*ECDSASignature]) ==> hotstuff.setlen(hotstuff.parts(s)) == len(as(s, Multi[*ECDSASignature]))
+
+// ==== the same contracts for the EdDSA instantiation
+// ---- Multi: signer lists of multi-signatures. Size counts entries; with pairwise distinct
+// signers (which Sign and Combine establish) it is the number of distinct signers.
+//@ pred mnonnilEd(s Multi[*EDDSASignature]) = forall i int :: {s[i]} 0 <= i && i < len(s) ==> s[i] != nil
+//@ pred mdistinctEd(s Multi[*EDDSASignature]) = forall i int, j int :: {s[i], s[j]} 0 <= i && i < j && j < len(s) ==> s[i].signer != s[j].signer
+//@ pure func mmemEd(s Multi[*EDDSASignature], x hotstuff.ID) bool = exists i int :: {s[i]} 0 <= i && i < len(s) && s[i].signer == x
+
+//@ func (Multi[*EDDSASignature]).Contains property C19
+//@   requires mnonnilEd(sig)
+//@   ensures [def] result == mmemEd(sig, id)
+//@ func (Multi[*EDDSASignature]).Len property C19
+//@   ensures [def] result == len(sig)
+
+//@ func (*EDDSA).Combine property C19
+//@   requires forall k int :: 0 <= k && k < len(signatures) && istype(signatures[k], Multi[*EDDSASignature]) ==> mnonnilEd(as(signatures[k], Multi[*EDDSASignature]))
+//@   ensures [distinct] result1 == nil ==> istype(result0, Multi[*EDDSASignature]) && mdistinctEd(as(result0, Multi[*EDDSASignature])) && mnonnilEd(as(result0, Multi[*EDDSASignature]))
+//@   ensures [atleast2] len(signatures) < 2 ==> result1 != nil
+//@   loop 0 invariant [distinct] mdistinctEd(ts)
+//@   loop 0 invariant [nonnil] mnonnilEd(ts)
+//@   loop 0 invariant [fresh] fresh(ts) && preserved([]*EDDSASignature)
+//@   loop 1 invariant [distinct] mdistinctEd(ts)
+//@   loop 1 invariant [nonnil] mnonnilEd(ts)
+//@   loop 1 invariant [fresh] fresh(ts) && preserved([]*EDDSASignature)
+//@   modifies alloc
+
+// ---- repeated signers are rejected before any quorum is counted
+//@ func (Multi[*EDDSASignature]).hasDuplicateSigner property C02,C19
+//@   requires mnonnilEd(sig)
+//@   ensures [def] result == !mdistinctEd(sig)
+//@   loop 0 invariant [seen] forall id hotstuff.ID :: has(seen, id) == (exists i int :: {sig[i]} 0 <= i && i <= rangeindex && sig[i].signer == id)
+//@   loop 0 invariant [prefix] forall i int, j int :: {sig[i], sig[j]} 0 <= i && i < j && j <= rangeindex ==> sig[i].signer != sig[j].signer
+//@   loop 0 invariant [map] seen != nil && fresh(seen)
+//@   modifies alloc
+
+// Sequential part of EdDSA verification (the per-signature checks run in goroutines and are
+// not modelled: their outcome is arbitrary here): an accepted signature is a non-empty
+// Multi with pairwise distinct signers.
+//@ func (*EDDSA).Verify property C02,C19
+//@   requires forall sg hotstuff.QuorumSignature :: istype(sg, Multi[*EDDSASignature]) ==> mnonnilEd(as(sg, Multi[*EDDSASignature]))
+//@   ensures [distinct] result == nil ==> istype(signature, Multi[*EDDSASignature]) && len(as(signature, Multi[*EDDSASignature])) >= 1 && mdistinctEd(as(signature, Multi[*EDDSASignature]))
+//@   modifies alloc
+//@ func (*EDDSA).BatchVerify property C02,C19
+//@   requires forall sg hotstuff.QuorumSignature :: istype(sg, Multi[*EDDSASignature]) ==> mnonnilEd(as(sg, Multi[*EDDSASignature]))
+//@   ensures [distinct] result == nil ==> istype(signature, Multi[*EDDSASignature]) && len(as(signature, Multi[*EDDSASignature])) >= 1 && mdistinctEd(as(signature, Multi[*EDDSASignature]))
+//@   modifies alloc
+
+// Refinement link between the interface model functions and the Multi representation: for a
+// signature whose dynamic type is Multi[*EDDSASignature], its participant set is the list
+// itself, the set size is the list length and membership is membership in the list. (Backed
+// by the contracts of (Multi).Len and (Multi).Contains above; Participants returns the
+// receiver.)
+//@ axiom multi_eddsa_refines forall s hotstuff.QuorumSignature :: istype(s, Multi[*EDDSASignature]) ==> hotstuff.setlen(hotstuff.parts(s)) == len(as(s, Multi[*EDDSASignature]))
